@@ -15,9 +15,18 @@
 //   direct                -> per input tick, on bare TSOutputs (no graph): src <- apply_delta(input);
 //                            d = capture_delta(src); copy <- apply_delta(d); d2 = capture_delta(copy)
 //                            prints  <cycle>:<d>|<d2>|<src state>|<copy state> ...
+//   states                -> states <cycle>:<state in run 1>|<state in run 2> ...   per cycle in which the stream ticked in
+//                            either run (- = no tick), read by a probe node next to the record node
+//   source raw|delta      -> ok      raw: the ticks of this case are WRITTEN to the source through the raw output API
+//                            (harness/replay_raw.h: list.at(i), set add/remove, dict at/erase, ...), not applied with
+//                            apply_delta; `run` is then the graph  hgv_rawsrc -> record(out)  and `direct` writes its
+//                            source the same way.  (after `schema`, before the first tick; default: delta)
+//   touch <cycle> <i>     -> ok | err:mode | err:order | err:parse   raw source, top-level dynamic TSL only: the source calls
+//                            as_list().at(i) in that cycle WITHOUT writing the child (before the cycle's `tick`, if any)
 // (grammar of <S>, <delta>, <state>: harness/replay_text.h)
 #include "hgv_common.h"
 #include "replay_text.h"
+#include "replay_raw.h"
 
 #include <hgraph/lib/std/operators/impl/record_replay_memory_impl.h>
 #include <hgraph/lib/std/std_operators.h>
@@ -30,6 +39,7 @@
 #include <hgraph/types/time_series/ts_delta.h>
 #include <hgraph/types/time_series/ts_input.h>
 
+#include <map>
 #include <optional>
 #include <span>
 
@@ -65,24 +75,44 @@ namespace
         return resolved.impl->wire(w, resolved.map, resolved.args, resolved.kwargs);
     }
 
+    // probe key -> cycle -> state text of the observed stream at the end of that cycle (cycles in which it ticked)
+    std::map<std::string, std::map<std::size_t, std::string>> g_states;
+    const Sch                                               *g_probe_sch{nullptr};
+
+    struct StateProbe
+    {
+        static constexpr auto name = "c20_state_probe";
+        static void eval(In<"ts", TsVar<"S">, InputValidity::Unchecked> ts, Scalar<"key", Str> key, DateTime now)
+        {
+            if (!ts.base().modified()) { return; }
+            g_states[key.value()].insert_or_assign(testing::cycle_offset(now), print_state(*g_probe_sch, ts.base()));
+        }
+    };
+
     struct RunResult
     {
         std::vector<std::optional<Value>> deltas;
         Value                             buffer;   // the recorded dense buffer itself (owning copy)
         bool                              has_buffer{false};
         std::string                       final_state;
+        std::map<std::size_t, std::string> states;   // probe: cycle -> state
     };
 
     // replay(in) -> record(out); `seed` puts the replay buffer on the builder's GlobalState.
+    // `raw`: the source is hgv_rawsrc playing g_raw_script instead of replay(in).
     template <typename Seed>
-    RunResult run_graph(const Sch &sch, Seed seed)
+    RunResult run_graph(const Sch &sch, Seed seed, bool raw = false)
     {
         Wiring w;
         record_replay::set_config(w.global_state(),
                                   record_replay::RecordReplayConfig{.backend = std::string{record_replay::TESTING}});
-        auto src = call_operator(w, "replay", {str_arg("in")}, true, sch.meta);
-        if (!src.has_output) throw std::logic_error("replay has no output");
-        (void)call_operator(w, "record", {ts_arg(src.output.erased()), str_arg("out")}, false, nullptr);
+        auto src = call_operator(w, raw ? "hgv_rawsrc" : "replay", {str_arg("in")}, true, sch.meta);
+        if (!src.has_output) throw std::logic_error("source has no output");
+        const WiringPortRef port = src.output.erased();
+        (void)call_operator(w, "record", {ts_arg(port), str_arg("out")}, false, nullptr);
+        g_probe_sch = &sch;
+        g_states.erase("probe");
+        (void)wire<StateProbe>(w, Port<void>{w, port}, Str{"probe"});
         GraphBuilder gb = std::move(w).finish();
         seed(gb.global_state());
         GraphExecutorBuilder eb;
@@ -91,6 +121,7 @@ namespace
         auto               view     = executor.view();
         view.run();
         RunResult  r;
+        r.states      = g_states["probe"];
         const auto gs = view.graph().global_state();
         r.deltas      = testing::get_recorded_deltas(gs, "out");
         const ValueView buffer = gs.get("out");
@@ -100,7 +131,7 @@ namespace
             r.has_buffer = true;
         }
         const auto graph = view.graph();
-        for (std::size_t i = 0; i < 2; ++i)
+        for (std::size_t i = 0; i < 3; ++i)
         {
             auto node = graph.node_at(i);
             if (node.has_output())
@@ -138,9 +169,12 @@ int main(int argc, char **argv)
     std::ios::sync_with_stdio(false);
     const bool verbose = argc > 1 && std::string(argv[1]) == "-v";
     hgraph::stdlib::register_standard_operators();
+    register_rawsrc();
 
     std::unique_ptr<Sch>                            sch;
     std::vector<std::pair<std::size_t, std::string>> ticks;   // (cycle, delta text)
+    std::vector<std::pair<std::size_t, std::size_t>> touches; // (cycle, index), raw source only
+    bool                                            raw = false;
     std::optional<RunResult>                        run1, run2;
     std::string                                     line;
 
@@ -157,6 +191,8 @@ int main(int argc, char **argv)
         return seq;
     };
 
+    auto build_script = [&]() { return build_raw_script(*sch, ticks, touches); };
+
     while (std::getline(std::cin, line))
     {
         auto w = split(line);
@@ -166,7 +202,7 @@ int main(int argc, char **argv)
         {
             if (op == "case")
             {
-                sch.reset(); ticks.clear(); run1.reset(); run2.reset();
+                sch.reset(); ticks.clear(); touches.clear(); raw = false; run1.reset(); run2.reset();
                 std::cout << line << "\n";
             }
             else if (op == "schema" && w.size() == 2)
@@ -177,6 +213,7 @@ int main(int argc, char **argv)
                     auto   s = parse_schema(c);
                     if (!c.eof()) throw ParseError("trailing input");
                     sch = std::move(s);
+                    ticks.clear(); touches.clear(); raw = false; run1.reset(); run2.reset();
                     std::cout << "ok\n";
                 }
                 catch (const std::exception &e)
@@ -189,7 +226,7 @@ int main(int argc, char **argv)
             {
                 if (!sch) { std::cout << "err:schema\n"; continue; }
                 const long long cyc = std::stoll(w[1]);
-                if (cyc < 0 || (!ticks.empty() && static_cast<std::size_t>(cyc) <= ticks.back().first))
+                if (!raw_order_ok(cyc, true, ticks, touches))
                 {
                     std::cout << "err:order\n";
                     continue;
@@ -208,9 +245,40 @@ int main(int argc, char **argv)
                     std::cout << "err:parse\n";
                 }
             }
+            else if (op == "source" && w.size() == 2 && (w[1] == "raw" || w[1] == "delta"))
+            {
+                if (!sch) { std::cout << "err:schema\n"; continue; }
+                if (!ticks.empty() || !touches.empty()) { std::cout << "err:order\n"; continue; }
+                raw = w[1] == "raw";
+                std::cout << "ok\n";
+            }
+            else if (op == "touch" && w.size() == 3)
+            {
+                if (!sch) { std::cout << "err:schema\n"; continue; }
+                if (!raw || sch->kind != Kind::TSL || !sch->dyn) { std::cout << "err:mode\n"; continue; }
+                long long cyc = -1, idx = -1;
+                try { cyc = std::stoll(w[1]); idx = std::stoll(w[2]); }
+                catch (...) { std::cout << "err:parse\n"; continue; }
+                if (cyc < 0 || idx < 0 || static_cast<std::size_t>(idx) >= DYN_MAX) { std::cout << "err:parse\n"; continue; }
+                if (!raw_order_ok(cyc, false, ticks, touches))
+                {
+                    std::cout << "err:order\n";
+                    continue;
+                }
+                touches.emplace_back(static_cast<std::size_t>(cyc), static_cast<std::size_t>(idx));
+                std::cout << "ok\n";
+            }
             else if (op == "run" && w.size() == 1)
             {
                 if (!sch) { std::cout << "err:schema\n"; continue; }
+                if (raw)
+                {
+                    g_raw_script = build_script();
+                    run1         = run_graph(*sch, [&](GlobalStateView) {}, true);
+                    run2.reset();
+                    std::cout << print_recording(*sch, "rec1", *run1) << "\n";
+                    continue;
+                }
                 auto seq = build_seed();
                 run1     = run_graph(*sch, [&](GlobalStateView gs) { testing::set_replay_deltas(gs, "in", seq); });
                 run2.reset();
@@ -230,10 +298,37 @@ int main(int argc, char **argv)
                 if (!run1 || !run2) { std::cout << "err:norun\n"; continue; }
                 std::cout << "val1=" << run1->final_state << " val2=" << run2->final_state << "\n";
             }
+            else if (op == "states" && w.size() == 1)
+            {
+                if (!run1 || !run2) { std::cout << "err:norun\n"; continue; }
+                std::map<std::size_t, std::pair<std::string, std::string>> rows;
+                for (const auto &[cycle, text] : run1->states) { rows[cycle] = {text, "-"}; }
+                for (const auto &[cycle, text] : run2->states)
+                {
+                    auto it = rows.find(cycle);
+                    if (it == rows.end()) { rows[cycle] = {"-", text}; }
+                    else { it->second.second = text; }
+                }
+                std::string out = "states";
+                for (const auto &[cycle, pr] : rows) { out += " " + std::to_string(cycle) + ":" + pr.first + "|" + pr.second; }
+                std::cout << out << "\n";
+            }
             else if (op == "direct" && w.size() == 1)
             {
                 if (!sch) { std::cout << "err:schema\n"; continue; }
-                auto     seq = build_seed();
+                RawScript script;
+                if (raw) { script = build_script(); }
+                auto     seq = raw ? std::vector<std::optional<Value>>{} : build_seed();
+                if (raw)
+                {
+                    // one slot per cycle up to the last step; the slot only says "a step happens here"
+                    for (const auto &st : script.steps)
+                    {
+                        while (seq.size() < st.cycle) seq.emplace_back(std::nullopt);
+                        seq.emplace_back(Value{true});
+                    }
+                }
+                std::size_t next_step = 0;
                 TSOutput src{sch->meta};
                 TSOutput dst{sch->meta};
                 TSInput  in_src{TSInputBuilderFactory::checked_builder_for(*sch->meta, TSEndpointSchema::peered(sch->meta))};
@@ -245,7 +340,8 @@ int main(int argc, char **argv)
                 {
                     if (!seq[i].has_value()) continue;
                     const DateTime t = MIN_ST + MIN_TD * static_cast<std::int64_t>(i);
-                    apply_delta(src.view(t), seq[i]->view());
+                    if (raw) { raw_step(*sch, src.view(t), script.steps[next_step++]); }
+                    else { apply_delta(src.view(t), seq[i]->view()); }
                     auto iv = in_src.view(nullptr, t);
                     out += " " + std::to_string(i) + ":";
                     if (!iv.modified())
